@@ -135,15 +135,16 @@ ADDED = {
  "C05": "Added since: never-populated tables, values derived from slices of shared tuples/lists, two-level closure factories whose products are called and stored, push iterators saved while the module executes and ranged after the freeze, and poke(): a descent into keys, elements, bound methods and results of shared functions attempting a mutation at every node.",
  "C06": "Added since: operators over two collections, the collection as an element of a built-in's operand, f(*x, **operand) forms, the generic push-iterator fallbacks (plain Iterable / IterableMapping, starlark.Elements(dict)). Loops nested 1-8 deep in one function with every kind of exit; 1 to 131072 simultaneously live iterators through the Go API.",
  "C07": "Added since: a step limit competing with a host cancellation, limits set in the middle of a run and the OnMaxSteps hook, cancellation cycles after Uncancel, a built-in called by the host that cancels the thread, and the callback sub-check: the host cancels from inside a method of a host value or the Load hook (34 triggers x 5 placements, exhaustive) and nothing after the triggering operation may take effect. Cancellation with an empty reason.",
- "C08": "Added since: half of the functions and wrappers run from their serialized form; UnpackArgs specs with 60-129 parameters; every kind of * and ** operand (exhaustive).",
+ "C08": "Added since: half of the functions and wrappers run from their serialized form; UnpackArgs specs with 60-129 parameters; every kind of * and ** operand (exhaustive). Every sized Go integer target at the boundaries of its range through three entry points (exhaustive); a keyword given twice in wide signatures.",
  "C09": "Added since: else/elif plants, recursion entered by starlark.Call on an idle thread, point-of-use plants under GlobalReassign, */** operands at the 255-argument limits, and the legacy package-level dialect flags (file parsed, flags flipped, decoy parsed, then resolved). REPL sessions whose globals are named like universals; recursion through a second Init of the same compiled program.",
  "C10": "Added since: texts of several zeros with automatic base detection.",
  "C11": "Added since: computed twins - an integer produced by 19 operation recipes on big operands must equal, hash, order and key like its literal (exhaustive over 46 targets); sorted() on tuples as well as lists.",
  "C12": "Added since: whole-set subset comparisons (s <= s, issubset of all elements twice, all but one) and a generator of bucket lists dozens of buckets deep in neighbouring table slots; dict values None / False / empty string. The collection as the argument of an update that is refused (receiver frozen, being iterated, or the collection itself) must stay usable.",
  "C13": "Added since: truth pools with bytes and ranges for any/all; a list computed from a list (slice, +, *, list(), sorted, reversed) is written to and the operand must not change; no pure operation may change its list or tuple operand.",
+ "C14": "Added since: escapes that name a surrogate code point (all 2048 x \\u/\\U x text/bytes, exhaustive) are rejected inside the literal or keep exactly that code point.",
  "C15": "Added since: str(s) == s for ill-formed strings; an integer next to strings and bytes that spell it in five bases (exhaustive over boundary integers).",
- "C16": "Added since: unary operators on non-literal operands, failing '+' chains with folded literal runs, free-variable/cell failures, host values that re-enter Starlark from index/attribute/operator instructions, line gaps past 2^15 and 2^16 in the quick tier, and invariance of the whole stack (including the otherwise unasserted callee frame of an argument-binding failure) on a thread that ran other code before.",
- "C17": "Added since: unrelated programs decoded between reading a program back and using it; Write repeated on both programs after they have executed and formatted a backtrace; host-side calls of the functions of both programs.",
+ "C16": "Added since: unary operators on non-literal operands, failing '+' chains with folded literal runs, free-variable/cell failures, host values that re-enter Starlark from index/attribute/operator instructions, line gaps past 2^15 and 2^16 in the quick tier, and invariance of the whole stack (including the otherwise unasserted callee frame of an argument-binding failure) on a thread that ran other code before. Index assignments whose store fails after the read and the operator succeeded; non-ASCII text to the left of reported positions.",
+ "C17": "Added since: unrelated programs decoded between reading a program back and using it; Write repeated on both programs after they have executed and formatted a backtrace; host-side calls of the functions of both programs. Lines wider than 2^16 and 2^17 columns.",
  "C18": "Added since: wide documents (10^4 and more sibling objects/arrays/scalars at nesting depth 1-4); the too-deep exclusion measures nesting, not bracket count.",
  "C19": "Added since: duration / int must be the quotient to within one nanosecond (integer arithmetic), not within a relative tolerance; duration / duration must be the correctly rounded quotient when both nanosecond counts are below 2^53.",
  "C20": "Added since: writes through proto.set_field (extension and ordinary) after freezing; elements picked out of an iteration over a repeated message field, kept across a freeze and written afterwards; map values taken out of dict(map field). Sub-message chains 1-40 deep round-trip through both encodings; a nested enum with the simple name of the field's enum.",
